@@ -1,5 +1,10 @@
 package eng
 
+import (
+	"fmt"
+	"reflect"
+)
+
 // weights common to world-building profiles
 func baseWeights() map[string]int {
 	return map[string]int{
@@ -21,6 +26,10 @@ func with(w map[string]int, kv ...any) map[string]int {
 	return out
 }
 
+const genNote = "cases are rapid state-machine histories drawn from the model state over 16 component types (plain, zero-size, pointer-bearing, relation) " +
+	"with capacities from {1,1,2,3,4,8,16,64}, 0-240 filler types before the universe (IDs in every mask word) and a drawn registration order; " +
+	"distinct = distinct (configuration, op list) by FNV-64 of the JSON; "
+
 // Props is the table of engine-based property checks.
 var Props = map[string]*PropDef{}
 
@@ -30,11 +39,198 @@ func init() {
 		Profile:  &Profile{Name: "store", W: with(baseWeights(), "reset", 1), MaxEnts: 40, MinOps: 10, MaxOps: 120},
 		Policies: []Policy{{}},
 		Opt:      Options{DeepEvery: 5},
-		Rule: "rapid state-machine histories of create/add/remove/exchange/set/copy/remove-entity/batch/relation/shrink/reset ops over 16 component types, " +
-			"each through a drawn API path (Map[T], Map1-12, Exchange1-8, ID-based); non-trivial = >= 8 ops of which >= 1 moves or removes an entity " +
-			"out of a table holding >= 2 entities; distinct = distinct op list + world configuration (FNV-64 of the JSON)",
+		Rule: genNote + "every op goes through a drawn API path (Map[T], Map1-12, Exchange1-8, ID-based) and the whole world is compared with the model after every op; " +
+			"non-trivial = >= 8 ops, >= 1 entity moved or removed out of a table that held >= 2 entities (swap-remove fix-up) and >= 1 table grown beyond its initial capacity",
 		NonTrivial: func(it *Interp, ops []Op) bool {
-			return len(ops) >= 8 && it.Cnt["move-from-shared-table"] > 0
+			return len(ops) >= 8 && it.Cnt["move-from-shared-table"] > 0 && it.Cnt["table-grown"] > 0
+		},
+	}
+	Props["C02"] = &PropDef{
+		ID: "C02",
+		Profile: &Profile{Name: "pool", W: map[string]int{"new": 20, "newBatch": 10, "copy": 6, "removeEntity": 22, "removeEntities": 8, "filterNew": 3,
+			"add": 4, "remove": 2, "reset": 1, "dumpLoad": 2, "query": 1, "stats": 1, "shrink": 1}, MaxEnts: 30, MinOps: 10, MaxOps: 150, Caps: []int{1, 1, 2, 3, 4, 8}},
+		Policies: []Policy{{}},
+		Opt:      Options{DeepEvery: 1},
+		Rule: genNote + "creation/removal-heavy histories incl. dump/reset/load; after every op Alive(h) is compared with the model for every handle issued since the last reset, " +
+			"new handles are checked against the set of issued handles, Stats.Used = Filter0 count = model; non-trivial = at some point >= 2 IDs are in the free list and >= 1 ID is re-issued with a newer generation",
+		NonTrivial: func(it *Interp, ops []Op) bool { return it.Cnt["free-list-2"] > 0 && it.Cnt["id-reissued"] > 0 },
+	}
+	Props["C03"] = &PropDef{
+		ID: "C03",
+		Profile: &Profile{Name: "query", W: with(baseWeights(), "filterNew", 8, "query", 22, "filterReg", 3, "new", 18, "shrink", 2, "reset", 1), MaxEnts: 40, MinOps: 10, MaxOps: 100,
+			RelBias: 30},
+		Policies: []Policy{{}},
+		Opt:      Options{DeepEvery: 10},
+		Rule: genNote + "filters of arity 0-8 (typed) and unsafe filters with drawn with/without/exclusive, fixed and per-query relation targets are queried against an independent enumeration of the model: " +
+			"visited multiset, Get pointers identical to Unsafe.Get, GetRelation, Count before/during, EntityAt(i) for all i, out-of-range EntityAt; " +
+			"non-trivial = >= 1 query whose expected set is non-empty, a strict subset of the alive entities and spread over >= 2 tables",
+		NonTrivial: func(it *Interp, ops []Op) bool { return it.Cnt["query-nontrivial"] > 0 },
+	}
+	Props["C04"] = &PropDef{
+		ID: "C04",
+		Profile: &Profile{Name: "relations", W: with(baseWeights(), "setRel", 14, "setRelBatch", 5, "removeEntity", 12, "removeEntities", 6, "shrink", 4, "reset", 1, "query", 8, "filterNew", 5),
+			MaxEnts: 30, MinOps: 10, MaxOps: 120, RelBias: 70, Caps: []int{1, 1, 2, 2, 3, 4, 8}},
+		Policies: []Policy{{}},
+		Opt:      Options{DeepEvery: 3},
+		Rule: genNote + "relation-heavy histories (1-3 relation components per entity, shared targets, targets that are children, single and batch target removal, SetRelations(Batch), Shrink, Reset); " +
+			"every relation target of every alive entity is compared with the model through Unsafe/Map/MapN/Query.GetRelation after every op; " +
+			"non-trivial = >= 1 target removal that detaches >= 1 surviving child",
+		NonTrivial: func(it *Interp, ops []Op) bool { return it.Cnt["target-removal-detaches-survivor"] > 0 },
+	}
+	Props["C05"] = &PropDef{
+		ID: "C05",
+		Profile: &Profile{Name: "cache", W: with(baseWeights(), "filterNew", 8, "filterReg", 12, "query", 20, "removeEntity", 10, "removeEntities", 5, "setRel", 10, "shrink", 4, "reset", 1,
+			"qOpen", 6, "qNext", 8, "qClose", 3, "removeBatch", 4, "addBatch", 4),
+			MaxEnts: 30, MinOps: 10, MaxOps: 120, RelBias: 60, OpenQ: true, MaxOpenQ: 4, Caps: []int{1, 1, 2, 3, 4, 8}},
+		Policies: []Policy{{}},
+		Opt:      Options{DeepEvery: 10},
+		Rule: genNote + "filters are registered/unregistered at drawn points (also while queries are open); every query of a registered filter is repeated on a never-registered twin with the identical spec " +
+			"and both are compared with the model (entities, Count, EntityAt); batch selections through cached filters are compared with the model selection; " +
+			"non-trivial = a relation table matching a registered filter is emptied (freed/recycled by target death or Shrink) while registered and the filter is queried afterwards",
+		NonTrivial: func(it *Interp, ops []Op) bool { return it.Cnt["query-cached-after-table-emptied"] > 0 },
+	}
+	Props["C06"] = &PropDef{
+		ID: "C06",
+		Profile: &Profile{Name: "batch", W: with(baseWeights(), "addBatch", 10, "removeBatch", 9, "exchangeBatch", 8, "setRelBatch", 8, "removeEntities", 7, "newBatch", 10, "filterNew", 7, "filterReg", 4, "query", 3),
+			MaxEnts: 40, MinOps: 10, MaxOps: 100, RelBias: 30},
+		Policies: []Policy{{}, {ExpandBatches: true}},
+		Opt:      Options{DeepEvery: 10},
+		Rule: genNote + "backend B0 executes each batch op, backend B1 its expansion into single-entity ops over the model's selection; both are compared with the model after every op; " +
+			"callbacks are checked for exactly-once per selected entity, entity handle, pointer identity with Unsafe.Get and lock state; " +
+			"non-trivial = >= 1 non-empty batch that spans >= 2 source tables or lands in a non-empty destination, with >= 1 alive entity not selected",
+		NonTrivial: func(it *Interp, ops []Op) bool {
+			return (it.Cnt["batch-multi-table"] > 0 || it.Cnt["batch-dest-nonempty"] > 0) && it.Cnt["batch-partial"] > 0
+		},
+	}
+	Props["C07"] = &PropDef{
+		ID: "C07",
+		Profile: &Profile{Name: "lock", W: map[string]int{"new": 10, "newBatch": 4, "copy": 2, "add": 8, "remove": 5, "exchange": 4, "set": 5, "write": 4, "setRel": 3, "removeEntity": 5,
+			"removeEntities": 4, "addBatch": 2, "removeBatch": 3, "filterNew": 5, "filterReg": 2, "query": 5, "stats": 2, "emit": 2, "obsNew": 1, "obsReg": 1, "read": 2,
+			"qOpen": 14, "qNext": 16, "qClose": 12, "reset": 1},
+			MaxEnts: 25, MinOps: 20, MaxOps: 160, OpenQ: true, MaxOpenQ: 64, Nested: true, Burst: true},
+		Policies: []Policy{{}},
+		Opt:      Options{DeepEvery: 10, Events: true},
+		Rule: genNote + "up to 64 queries (typed/unsafe, cached/uncached) are opened, advanced, exhausted and closed in drawn orders, closed again; between steps structural ops (must panic without effect) and " +
+			"permitted ops (reads, pointer writes, Set, Emit, new queries, Stats) are attempted, also from inside batch/removal callbacks; IsLocked and Stats.Locked are compared with the model after every op; " +
+			"non-trivial = >= 2 queries open at once, >= 1 non-LIFO close, >= 1 rejected structural attempt and >= 1 double Close",
+		NonTrivial: func(it *Interp, ops []Op) bool {
+			return it.Cnt["two-queries-open"] > 0 && it.Cnt["non-lifo-close"] > 0 && it.Cnt["rejected-structural-under-lock"] > 0 && it.Cnt["double-close"] > 0
+		},
+	}
+	obsW := with(baseWeights(), "obsNew", 10, "obsReg", 8, "emit", 8, "set", 9, "query", 2, "filterNew", 3, "shrink", 1)
+	Props["C08"] = &PropDef{
+		ID:       "C08",
+		Profile:  &Profile{Name: "observers", W: obsW, MaxEnts: 25, MinOps: 10, MaxOps: 100, RelBias: 40, ObsPrefix: 4},
+		Policies: []Policy{{}, {DropObsOdd: true}},
+		Opt:      Options{DeepEvery: 20, Events: true},
+		Rule: genNote + "1-8 observers (plain and Observer1-4) with drawn event type (incl. two custom types), observed/with/without/exclusive sets are registered and unregistered in drawn orders, also from inside callbacks; " +
+			"per op the multiset of (observer, entity) callbacks is compared with the documented predicate evaluated per observer independently; backend B1 runs the same history with every second observer never registered; " +
+			"non-trivial = >= 1 op for which some but not all registered observers of one event type fire",
+		NonTrivial: func(it *Interp, ops []Op) bool { return it.Cnt["partial-fire"] > 0 },
+	}
+	Props["C09"] = &PropDef{
+		ID:       "C09",
+		Profile:  &Profile{Name: "inspect", W: with(obsW, "obsNew", 12, "obsReg", 10, "addBatch", 5, "removeBatch", 5, "exchangeBatch", 4, "setRelBatch", 5, "removeEntities", 5, "newBatch", 6, "filterNew", 5), MaxEnts: 20, MinOps: 10, MaxOps: 80, RelBias: 40, ObsPrefix: 4},
+		Policies: []Policy{{}},
+		Opt:      Options{DeepEvery: 20, Events: true, Inspect: true},
+		Rule: genNote + "as C08, and every observer callback inspects the world: reported entity alive and affected, every entity of the expected state appears exactly once in a Filter0 query, " +
+			"components/values/targets of the reported entity and (for batches) of all selected entities equal the model's pre-state (removal events) or post-state (all others), IsLocked as documented; " +
+			"non-trivial = >= 1 removal or batch callback inspected on a world with >= 2 tables",
+		NonTrivial: func(it *Interp, ops []Op) bool { return it.Cnt["inspected-removal-or-batch"] > 0 },
+	}
+	Props["C10"] = &PropDef{
+		ID: "C10",
+		Profile: &Profile{Name: "misuse", W: with(baseWeights(), "misuse", 40, "read", 10, "removeEntity", 12, "new", 16, "obsNew", 2, "obsReg", 2, "emit", 2, "shrink", 1),
+			MaxEnts: 20, MinOps: 10, MaxOps: 100, Misuse: true, RelBias: 30, Caps: []int{1, 2, 3, 4, 8}},
+		Policies: []Policy{{}},
+		Opt:      Options{DeepEvery: 1},
+		Rule: genNote + "in a drawn world state, calls that violate exactly one documented precondition (stale handle: dead / dead with the ID alive again / zero entity, in every checked entity-taking call of World, Unsafe, Map, MapN, ExchangeN, Emit; " +
+			"duplicate add, remove missing, empty component list, omitted target, dead target) must panic and the full model comparison, Stats and lock state must be unchanged; " +
+			"non-trivial = >= 1 stale-handle call whose ID is alive again under a newer generation, on a world with >= 2 alive entities",
+		NonTrivial: func(it *Interp, ops []Op) bool {
+			return it.Cnt["misuse-stale-dead-id-reused"] > 0 && it.M.NumAlive() >= 2
+		},
+	}
+	Props["C14"] = &PropDef{
+		ID:       "C14",
+		Profile:  &Profile{Name: "typed", W: with(obsW, "obsNew", 4, "obsReg", 4, "query", 10, "filterNew", 6, "addBatch", 4, "removeBatch", 4, "exchangeBatch", 4, "setRelBatch", 4, "newBatch", 6), MaxEnts: 30, MinOps: 10, MaxOps: 100, RelBias: 20, ObsPrefix: 2},
+		Policies: []Policy{{}, {ForceUnsafe: true}},
+		Opt:      Options{DeepEvery: 4, Events: true},
+		Rule: genNote + "backend B0 executes every op through the drawn typed variant (Map, Map1-12, Exchange1-8, Observer1-4; Filter0-8/Query0-8 on both), backend B1 the same op through the ID-based API with the same component list; " +
+			"both are compared with the model after every op; pointers from callbacks/Get/Query.Get are checked to be in type-parameter order and identical to Unsafe.Get; " +
+			"non-trivial = >= 1 successful op through a type of arity >= 2 that passes a relation target by parameter index",
+		NonTrivial: func(it *Interp, ops []Op) bool {
+			for i := range ops {
+				o := &ops[i]
+				if (o.P == PMap && o.M >= 32 || o.P == PEx && ExInsts[o.M].Arity >= 2) && len(o.Rels) > 0 {
+					for _, r := range o.Rels {
+						if r.S == 0 {
+							return true
+						}
+					}
+				}
+			}
+			return false
+		},
+	}
+	Props["C15"] = &PropDef{
+		ID: "C15",
+		Profile: &Profile{Name: "shrink", W: with(baseWeights(), "shrink", 12, "setRel", 10, "removeEntity", 10, "removeEntities", 4, "query", 10, "filterNew", 5, "filterReg", 5, "removeBatch", 4),
+			MaxEnts: 40, MinOps: 10, MaxOps: 120, RelBias: 60, Caps: []int{1, 1, 2, 3, 4, 8, 16}},
+		Policies: []Policy{{}, {SkipShrink: true}},
+		Opt:      Options{DeepEvery: 3, ShrinkCaps: true},
+		Rule: genNote + "histories with Shrink() / for Shrink(0) / for Shrink(1ns) / single Shrink(0) at drawn positions; backend B0 executes them, B1 skips them, both must equal the model after the Shrink and after every later op " +
+			"(entities, values, targets, queries incl. cached filters, batch selections); after an unbounded Shrink capacities are checked through Stats (size <= cap <= max(initial, pow2ceil(size)), free tables at initial capacity, no empty active relation table) and Shrink() must return false; " +
+			"non-trivial = >= 1 Shrink while an emptied relation table has an alive target, followed by >= 3 more ops",
+		NonTrivial: func(it *Interp, ops []Op) bool {
+			return it.Cnt["shrink-with-empty-relation-table-of-alive-target"] > 0 && len(ops)-it.shrinkAt >= 3
+		},
+	}
+	Props["C16"] = &PropDef{
+		ID: "C16",
+		Profile: &Profile{Name: "reset", W: with(obsW, "reset", 4, "obsNew", 6, "obsReg", 6, "filterNew", 5, "filterReg", 6, "res", 4, "query", 5, "setRel", 6, "removeEntity", 8, "qOpen", 2, "qNext", 2, "qClose", 2),
+			MaxEnts: 25, MinOps: 20, MaxOps: 120, RelBias: 50, OpenQ: true, MaxOpenQ: 3, Caps: []int{1, 2, 3, 4, 8}},
+		Policies: []Policy{{}, {FreshOnReset: true}},
+		Opt:      Options{DeepEvery: 5, Events: true},
+		Rule: genNote + "rich pre-history (observers of every event type, registered filters, resources, relation tables, recycled entities, opened-and-closed queries), Reset, post-history; right after Reset Stats must show no entities/filters/observers/lock and no resource may be present; " +
+			"backend B0 is reset, backend B1 is replaced by a new world with the same registration order: both must equal the model after every later op and no pre-reset observer may fire; filters and observers are registered again; " +
+			"non-trivial = a Reset of a non-empty world with >= 1 registered OnRemoveRelations observer and >= 1 registered filter, followed by >= 5 ops",
+		NonTrivial: func(it *Interp, ops []Op) bool {
+			last := -1
+			for i := range ops {
+				if ops[i].K == "reset" {
+					last = i
+				}
+			}
+			return it.Cnt["reset-with-highest-event-observer"] > 0 && it.Cnt["reset-with-registered-filter"] > 0 && it.Cnt["reset-nonempty-world"] > 0 && last >= 0 && len(ops)-last >= 5
+		},
+	}
+	Props["C19"] = &PropDef{
+		ID: "C19",
+		Profile: &Profile{Name: "stats", W: with(obsW, "stats", 14, "obsNew", 3, "obsReg", 3, "shrink", 4, "setRel", 8, "removeEntity", 9, "filterReg", 4, "reset", 1, "qOpen", 2, "qNext", 2, "qClose", 2),
+			MaxEnts: 30, MinOps: 10, MaxOps: 120, RelBias: 50, OpenQ: true, MaxOpenQ: 3, Caps: []int{1, 1, 2, 3, 4, 8, 16}},
+		Policies: []Policy{{}, {SkipStats: true}},
+		Opt:      Options{DeepEvery: 10},
+		Rule: genNote + "Stats is called at drawn points on backend B0 and only once at the end on B1; every returned object is checked for internal consistency (Used = sum of archetype = sum of table sizes = alive, Total = Used+Recycled <= Capacity, " +
+			"size <= cap, memory products and sums, no duplicate archetypes) and against the model (per component-set sizes, CachedFilters, Observers, Locked); the final Stats of B0 and B1 must be deeply equal; " +
+			"non-trivial = >= 2 Stats calls with a relation table emptied between two of them",
+		NonTrivial: func(it *Interp, ops []Op) bool { return it.Cnt["stats-after-table-emptied"] > 0 },
+		Extra: func(it *Interp, ops []Op) {
+			if len(it.B) < 2 {
+				return
+			}
+			a, b := it.B[0].W.Stats(), it.B[1].W.Stats()
+			if !reflect.DeepEqual(a.Entities, b.Entities) || a.MemoryUsed != b.MemoryUsed || a.Memory != b.Memory || len(a.Archetypes) != len(b.Archetypes) ||
+				a.CachedFilters != b.CachedFilters || a.Observers != b.Observers || a.Locked != b.Locked {
+				fail("stats|final|incremental-differs", "incrementally updated Stats differ from Stats computed once:\n%+v\n%+v", a, b)
+			}
+			for i := range a.Archetypes {
+				x, y := a.Archetypes[i], b.Archetypes[i]
+				x.ComponentTypes, y.ComponentTypes = nil, nil
+				if !reflect.DeepEqual(x, y) {
+					fail("stats|final|incremental-differs", "archetype %d: incrementally updated Stats differ from Stats computed once:\n%s\n%s", i, fmt.Sprintf("%+v", x), fmt.Sprintf("%+v", y))
+				}
+			}
 		},
 	}
 }
